@@ -336,7 +336,7 @@ int parse_instruction_pdk15(AsmContext *asm_context, char *instr)
             return -1;
           }
 
-          opcode = table_pdk15[n].opcode | (operands[0].value & 0x7ff);
+          opcode = table_pdk15[n].opcode | (operands[0].value & 0xfff);
           add_bin16(asm_context, opcode, IS_OPCODE);
 
           return 2;
